@@ -1480,6 +1480,38 @@ func (e *vestEnv) predicates(ctx sdk.Context, op *vestOp, pre *vestSnap, res opR
 		e.checkWithdrawEvents(op, pre, post, res)
 	case "send":
 		e.checkWithdrawEvents(op, pre, post, res)
+		// C06: a send first pays the owner what has matured, exactly like a withdraw-all: every pool at or past its lock end is
+		// empty afterwards, every other pool but the named one is untouched, and a withdrawal repeated right after it (on a branch
+		// of the state that is dropped) pays nothing
+		{
+			okLocked, okMatured := true, true
+			for i, p := range pre.pools[op.owner].VestingPools {
+				if i >= len(post.pools[op.owner].VestingPools) {
+					break
+				}
+				p2 := post.pools[op.owner].VestingPools[i]
+				if !pre.now.Before(p.LockEnd) {
+					if !p2.GetCurrentlyLocked().IsZero() {
+						okMatured = false
+					}
+				} else if p.Name != e.poolName(op.name) {
+					if !p2.Withdrawn.Equal(p.Withdrawn) || !p2.Sent.Equal(p.Sent) || !p2.InitiallyLocked.Equal(p.InitiallyLocked) {
+						okLocked = false
+					}
+				}
+			}
+			rep.Eval("C06.send_pays_matured_pools_in_full", okMatured, c, st, op.term+": a pool at or past its lock end still keeps coins after the send's withdrawal")
+			rep.Eval("C06.send_leaves_other_locked_pools_untouched", okLocked, c, st, op.term)
+			cc, _ := ctx.CacheContext()
+			func() {
+				defer func() { _ = recover() }()
+				r, err := e.ms.WithdrawAllAvailable(sdk.WrapSDKContext(cc), &vesttypes.MsgWithdrawAllAvailable{Owner: e.addrStr(op.owner)})
+				if err == nil {
+					rep.Eval("C06.withdrawal_repeated_after_a_send_pays_nothing", r.Withdrawn.Amount.IsZero(), c, st,
+						fmt.Sprintf("%s: a withdrawal in the same block right after the send (which had paid the owner %v) pays %v", op.term, res.amount, r.Withdrawn))
+				}
+			}()
+		}
 		_, existed := pre.accBytes[op.to]
 		rep.Eval("C08.recipient_was_absent", !existed, c, st, op.term)
 		// C06: coins of a pool leave it (apart from the owner's withdrawal of matured coins) only into a newly created vesting account
